@@ -150,7 +150,7 @@ fn reply_events(rng: &mut Rng, kind: &str, tid: u16, unit: u8, req: &Request<'_>
             let at = rng.below(evs.len() + 1);
             evs.insert(at, "e".into());
         }
-        2 => evs.push("e".into()),
+        2 => evs.push(if rng.chance(1, 4) { "E" } else { "e" }.into()),
         _ => {}
     }
     if evs.is_empty() {
@@ -356,7 +356,8 @@ pub fn gen_srv_histories(out: &mut Out, rng: &mut Rng, n: usize) {
             }
         }
         match rng.below(6) {
-            0 | 1 => evs.push("e".into()),
+            0 => evs.push("e".into()),
+            1 => evs.push("E".into()),
             2 => {
                 let at = rng.below(evs.len() + 1);
                 evs.insert(at, err_tok(rng));
